@@ -178,10 +178,17 @@ pub fn format_highres_date(t: f64, offset: Option<i32>) -> String {
     let offset = offset.unwrap_or(0);
     // Take the whole seconds from the floor, like the fraction below, so that
     // negative fractional timestamps do not gain a second.
+    let mut whole_seconds = t.floor() as i64;
+    let fraction = format!("{:.9}", t - t.floor());
+    if fraction.starts_with('1') {
+        // The fraction rounded up to 1.000000000 at nine digits: carry it
+        // into the seconds instead of dropping it with the leading digit.
+        whole_seconds += 1;
+    }
     let datetime = Utc
-        .timestamp_opt(t.floor() as i64 + offset as i64, 0)
+        .timestamp_opt(whole_seconds + offset as i64, 0)
         .unwrap();
-    let highres_seconds = format!("{:.9}", t - t.floor())[1..].to_string();
+    let highres_seconds = fraction[1..].to_string();
     // Print the sign once and the magnitude of hours and minutes, so that
     // negative offsets that are not whole hours stay parseable (-0130).
     let sign = if offset < 0 { '-' } else { '+' };
